@@ -2,17 +2,18 @@
 # usage: allmut_par.sh <jobs> <ID>...  -- re-runs every kept change of the given properties against scratch worktrees of
 # /repo (VERIF_REPO), <jobs> at a time; each change was first confirmed against /repo itself (trymut.sh). Prints caught/MISSED.
 J=$1; shift
+export VROOT=${VERIF_ROOT:-/verif}   # a git worktree of /verif may be given, so that the harness can be edited while this runs
 run_one() {
   d=$1; slot=$2
   id=$(basename $d); prop=${id%%-*}
   wt=/tmp/reg-$slot-$$
   git -C /repo worktree add --detach $wt HEAD >/dev/null 2>&1 || { echo "$id: worktree failed"; return; }
   if git -C $wt apply $d/patch.diff 2>/dev/null; then
-    out=$(cd /verif && VERIF_REPO=$wt VERIF_EVIDENCE_DIR=/tmp/reg-evidence VERIF_REPLAY_DIR=/tmp/reg-replays ./check $prop 2>&1); rc=$?
+    out=$(cd $VROOT && VERIF_REPO=$wt VERIF_EVIDENCE_DIR=/tmp/reg-evidence VERIF_REPLAY_DIR=/tmp/reg-replays ./check $prop 2>&1); rc=$?
     case $rc in 1) r=caught;; 0) r=MISSED;; *) r="rc=$rc";; esac
   else r="patch does not apply"; fi
   echo "$id: $r"
   git -C /repo worktree remove --force $wt >/dev/null 2>&1
 }
 export -f run_one
-ls -d $(for p in "$@"; do echo /verif/seeded/$p-*; done) | awk '{print $0, NR}' | xargs -P $J -L 1 bash -c 'run_one $0 $1'
+ls -d $(for p in "$@"; do echo $VROOT/seeded/$p-*; done) | awk '{print $0, NR}' | xargs -P $J -L 1 bash -c 'run_one $0 $1'
